@@ -215,7 +215,11 @@ func parseJavaSamples(pType string, b []byte, p *Profile) ([]byte, map[uint64]*L
 				if s.Value[0] == 0 {
 					return nil, nil, fmt.Errorf("parsing sample %s: second value must be non-zero", line)
 				}
-				s.NumLabel = map[string][]int64{"bytes": {s.Value[1] / s.Value[0]}}
+				// A zero label value without unit cannot be represented in
+				// profile.proto and would be lost by the first Write or Copy.
+				if blocksize := s.Value[1] / s.Value[0]; blocksize != 0 {
+					s.NumLabel = map[string][]int64{"bytes": {blocksize}}
+				}
 				s.Value[0], s.Value[1] = scaleHeapSample(s.Value[0], s.Value[1], javaHeapzSamplingRate)
 			case "contention":
 				if period := p.Period; period != 0 {
